@@ -1,7 +1,7 @@
 # -*- coding: utf-8 -*-
 
 import json
-from typing import Iterable, Optional, Union
+from typing import Iterable, List, Optional, Union
 
 from .._utils import classdispatch
 from . import ast as _ast
@@ -98,7 +98,21 @@ class ASTPrinter:
         return "$%s" % node.name.value
 
     def print_document(self, node: _ast.Document) -> str:
-        return _join(map(self, node.definitions), "\n\n") + "\n"
+        entries = []  # type: List[str]
+        for definition in node.definitions:
+            entry = self(definition)
+            # The query shorthand cannot follow a definition which does not end
+            # with a closing brace (e.g. `type Foo`): its selection set would be
+            # read as the optional block of that definition.
+            if (
+                entry.startswith("{")
+                and entries
+                and not entries[-1].endswith("}")
+            ):
+                entry = "query " + entry
+            if entry:
+                entries.append(entry)
+        return _join(entries, "\n\n") + "\n"
 
     def print_operation_definition(self, node: _ast.OperationDefinition) -> str:
         op = node.operation
